@@ -1,13 +1,15 @@
-(* C34: pick_first (balancer/pickfirst/pickfirst.go), driven in rounds.
+(* C34: pick_first (balancer/pickfirst/pickfirst.go).
    An address is a code fam*1000+n (fam 0 unknown / 1 IPv4 / 2 IPv6).
-   Transcribed: deDupAddresses, interleaveAddresses, and the effect of
-   UpdateClientConnState / updateSubConnState / requestConnectionLocked /
-   endFirstPassIfPossibleLocked / shutdownRemainingLocked / reconcileSubConnsLocked /
-   resolverErrorLocked / updateBalancerState on the histories the driver produces:
-   a resolver update followed by the answers CONNECTING,TRANSIENT_FAILURE (or
-   CONNECTING,READY for the k-th request) to every connection request, in request order.
-   Between rounds every surviving sub-channel is in TRANSIENT_FAILURE, or there is exactly
-   one and it is READY.  No health listener, no shuffling, timer never fires.
+   Transcribed function by function: deDupAddresses, interleaveAddresses, addressList,
+   UpdateClientConnState, resolverErrorLocked, ExitIdle, startFirstPassLocked,
+   closeSubConnsLocked, reconcileSubConnsLocked, shutdownRemainingLocked,
+   requestConnectionLocked, scheduleNextConnectionLocked (+ the timer callback),
+   updateSubConnState (all branches), endFirstPassIfPossibleLocked, isActiveSCData,
+   updateBalancerState / forceUpdateConcludedStateLocked.
+   Not modelled: health listener (healthCheckingEnabled = false), shuffling, Endpoints
+   input, lastErr (error values), Close (only at the end of a history).
+   Sub-channels are numbered in creation order; b.subConns is the list of the numbers of
+   the active scData in increasing order (map iteration order is normalised by sorting).
    No proofs here. *)
 From Coq Require Import List ZArith Bool Arith.
 From VLib Require Import Codec.
@@ -49,107 +51,269 @@ Definition interleave (l : list Z) : list Z := rr (length l) (fam_queues l).
 
 Definition preprocess (l : list Z) : list Z := interleave (dedup l).
 
-(* ---------- the policy between rounds ---------- *)
+(* ---------- the policy ---------- *)
+
+Definition SHUTDOWN : Z := 4.
+
+(* scData (+ ghost: Shutdown() was called on the sub-channel) *)
+Record sdr := mksd { d_addr : Z; d_raw : Z; d_eff : Z; d_failed : bool; d_shut : bool }.
 
 Record st := mkst {
   bstate : Z;                 (* b.state *)
-  subs : list (Z * Z);        (* b.subConns with raw state TRANSIENT_FAILURE: (address, sub-channel), increasing sub-channel *)
-  rdy : option (Z * Z);       (* the sub-channel with raw state READY (then subs = []) *)
-  naddrs : Z;                 (* b.addressList.size() *)
-  nsc : Z                     (* sub-channels created so far *)
+  subs : list nat;            (* b.subConns: numbers of the active scData, increasing *)
+  sds : nat -> sdr;           (* every scData ever created (old listeners keep updating theirs) *)
+  nsc : nat;                  (* sub-channels created so far *)
+  addrs : list Z;             (* b.addressList.addresses *)
+  idx : nat;                  (* b.addressList.idx *)
+  firstPass : bool;
+  numTF : Z;
+  timer : bool;               (* a happy-eyeballs timer is scheduled and not cancelled *)
+  sticky : bool               (* ghost: TF was published by the end of a pass and nothing but TF has
+                                 been published since, nor an empty address list received *)
 }.
-Definition init : st := mkst CONNECTING [] None 0 0.
 
+Definition dummy_sd : sdr := mksd (-1) IDLE IDLE false false.
+Definition init : st := mkst CONNECTING [] (fun _ => dummy_sd) O [] O false 0 false false.
+
+Definition zn (n : nat) : Z := Z.of_nat n.
 Definition evU (s sc : Z) : word := [1; s; sc].
-Definition evN (sc a : Z) : word := [2; sc; a].
-Definition evC (sc : Z) : word := [3; sc].
-Definition evS (sc : Z) : word := [14; sc].
+Definition evN (sc : nat) (a : Z) : word := [2; zn sc; a].
+Definition evC (sc : nat) : word := [3; zn sc].
+Definition evS (sc : nat) : word := [14; zn sc].
 
 Definition valid_addr (a : Z) : bool := (0 <=? a) && (a <? 3000) && (a mod 1000 <? 256).
 
-Definition has_addr (a : Z) (l : list (Z * Z)) : bool := existsb (fun p => fst p =? a) l.
+Definition set_bstate (s : st) (v : Z) (k : bool) : st :=
+  mkst v (subs s) (sds s) (nsc s) (addrs s) (idx s) (firstPass s) (numTF s) (timer s) k.
+Definition set_subs (s : st) (l : list nat) : st :=
+  mkst (bstate s) l (sds s) (nsc s) (addrs s) (idx s) (firstPass s) (numTF s) (timer s) (sticky s).
+Definition set_sds (s : st) (f : nat -> sdr) (n : nat) : st :=
+  mkst (bstate s) (subs s) f n (addrs s) (idx s) (firstPass s) (numTF s) (timer s) (sticky s).
+Definition set_list (s : st) (l : list Z) (i : nat) : st :=
+  mkst (bstate s) (subs s) (sds s) (nsc s) l i (firstPass s) (numTF s) (timer s) (sticky s).
+Definition set_pass (s : st) (fp : bool) (n : Z) : st :=
+  mkst (bstate s) (subs s) (sds s) (nsc s) (addrs s) (idx s) fp n (timer s) (sticky s).
+Definition set_timer (s : st) (t : bool) : st :=
+  mkst (bstate s) (subs s) (sds s) (nsc s) (addrs s) (idx s) (firstPass s) (numTF s) t (sticky s).
+Definition set_sticky (s : st) (k : bool) : st :=
+  mkst (bstate s) (subs s) (sds s) (nsc s) (addrs s) (idx s) (firstPass s) (numTF s) (timer s) k.
 
-Fixpoint take {A} (n : nat) (l : list A) : list A :=
-  match n, l with
-  | S m, x :: r => x :: take m r
-  | _, _ => []
-  end.
+Definition fupd {A} (f : nat -> A) (n : nat) (g : A -> A) : nat -> A :=
+  fun x => if Nat.eqb x n then g (f x) else f x.
+Definition upd_sd (s : st) (sc : nat) (g : sdr -> sdr) : st := set_sds s (fupd (sds s) sc g) (nsc s).
+Definition d_set_raw (v : Z) (d : sdr) := mksd (d_addr d) v (d_eff d) (d_failed d) (d_shut d).
+Definition d_set_eff (v : Z) (d : sdr) := mksd (d_addr d) (d_raw d) v (d_failed d) (d_shut d).
+Definition d_set_failed (b : bool) (d : sdr) := mksd (d_addr d) (d_raw d) (d_eff d) b (d_shut d).
+Definition d_set_shut (d : sdr) := mksd (d_addr d) (d_raw d) (d_eff d) (d_failed d) true.
 
-(* sub-channel numbers nsc, nsc+1, ... for a list of attempted addresses *)
-Fixpoint number (n : Z) (l : list Z) : list (Z * Z) :=
+(* addressList *)
+Definition al_valid (s : st) : bool := (idx s <? length (addrs s))%nat.
+Definition cur_addr (s : st) : Z := if al_valid s then nth (idx s) (addrs s) (-1) else -1.
+Definition al_has_next (s : st) : bool := al_valid s && (idx s + 1 <? length (addrs s))%nat.
+(* increment: the new state and the result *)
+Definition al_increment (s : st) : st * bool :=
+  if al_valid s then
+    let s1 := set_list s (addrs s) (S (idx s)) in (s1, al_valid s1)
+  else (s, false).
+Fixpoint index_of (a : Z) (l : list Z) : option nat :=
   match l with
-  | [] => []
-  | a :: r => (a, n) :: number (n + 1) r
+  | [] => None
+  | x :: r => if x =? a then Some O else match index_of a r with Some i => Some (S i) | None => None end
+  end.
+Definition al_seek (s : st) (a : Z) : st * bool :=
+  match index_of a (addrs s) with
+  | Some i => (set_list s (addrs s) i, true)
+  | None => (s, false)
   end.
 
-(* the CONNECTING report of the first fresh sub-channel (updateSubConnState, firstPass):
-   b.state is CONNECTING (cn: forced at the resolver update; updateBalancerState drops the
-   repetition) or TRANSIENT_FAILURE (not published: "if b.state != TransientFailure", fix
-   4e698e5; before the fix this was [evU CONNECTING (-1)]) *)
-Definition connecting_report (cn : bool) : list word := if cn then [] else [].
+(* b.subConns.Get(addr) *)
+Definition lookup (s : st) (a : Z) : option nat :=
+  find (fun sc => d_addr (sds s sc) =? a) (subs s).
+(* isActiveSCData *)
+Definition is_active (s : st) (sc : nat) : bool :=
+  match lookup s (d_addr (sds s sc)) with Some sc' => Nat.eqb sc' sc | None => false end.
 
-(* first pass over the fresh addresses F (those without a retained sub-channel), the k-th
-   request succeeds; cn = the policy already reports CONNECTING *)
-Definition pass (s : st) (retained : list (Z * Z)) (F : list Z) (k : Z) (cn : bool) (n_new : Z) : st * list word :=
-  let success := (0 <=? k) && (k <? Z.of_nat (length F)) in
-  let A := if success then take (S (Z.to_nat k)) F else F in
-  let created := number (nsc s) A in
-  let nsc' := nsc s + Z.of_nat (length A) in
-  let reqs := flat_map (fun p => [evN (snd p) (fst p); evC (snd p)]) in
-  match created with
-  | [] => (mkst TF retained None n_new nsc', [evU TF (-1)])
-  | first :: rest =>
-    let head := reqs [first] ++ connecting_report cn ++ reqs rest in
-    if success then
-      let win := last created first in
-      (mkst READY [] (Some win) n_new nsc',
-       head ++ map (fun p => evS (snd p)) (retained ++ removelast created) ++ [evU READY (snd win)])
-    else
-      (mkst TF (retained ++ created) None n_new nsc', head ++ [evU TF (-1)])
+Definition cancel_timer (s : st) : st := set_timer s false.
+
+(* sc.Shutdown() for a list of sub-channels (increasing) *)
+Definition shutdown_all (s : st) (l : list nat) : st * list word :=
+  (set_sds s (fun x => if existsb (Nat.eqb x) l then d_set_shut (sds s x) else sds s x) (nsc s), map evS l).
+
+(* forceUpdateConcludedStateLocked / updateBalancerState; pk = what the picker returns *)
+Definition force_state (s : st) (v pk : Z) : st * list word :=
+  (set_bstate s v (if v =? TF then sticky s else false), [evU v pk]).
+Definition update_state (s : st) (v pk : Z) : st * list word :=
+  if (v =? bstate s) && negb (bstate s =? TF) then (s, []) else force_state s v pk.
+
+(* scheduleNextConnectionLocked *)
+Definition schedule_next (s : st) : st :=
+  let s1 := cancel_timer s in
+  if al_has_next s1 then set_timer s1 true else s1.
+
+(* endFirstPassIfPossibleLocked *)
+Definition end_first_pass (s : st) : st * list word :=
+  if al_valid s then (s, [])
+  else if forallb (fun sc => d_failed (sds s sc)) (subs s) then
+    let s1 := set_pass s false (numTF s) in
+    let '(s2, e) := update_state s1 TF (-1) in
+    (set_sticky s2 true, e ++ map evC (filter (fun sc => d_raw (sds s2 sc) =? IDLE) (subs s2)))
+  else (s, []).
+
+(* requestConnectionLocked: the loop, at most fuel iterations *)
+Fixpoint req_loop (fuel : nat) (s : st) : st * list word :=
+  match fuel with
+  | O => (s, [])
+  | S f =>
+    let a := cur_addr s in
+    let '(s1, e1, sc) :=
+      match lookup s a with
+      | Some sc => (s, [], sc)
+      | None =>
+        let sc := nsc s in
+        (set_subs (set_sds s (fupd (sds s) sc (fun _ => mksd a IDLE IDLE false false)) (S sc)) (subs s ++ [sc]),
+         [evN sc a], sc)
+      end in
+    let raw := d_raw (sds s1 sc) in
+    if raw =? IDLE then (schedule_next s1, e1 ++ [evC sc])
+    else if raw =? TF then
+      let s2 := upd_sd s1 sc (d_set_failed true) in
+      let '(s3, more) := al_increment s2 in
+      if more then let '(s4, e4) := req_loop f s3 in (s4, e1 ++ e4)
+      else let '(s4, e4) := end_first_pass s3 in (s4, e1 ++ e4)
+    else if raw =? CONNECTING then (schedule_next s1, e1)
+    else (s1, e1)
   end.
+Definition request_connection (s : st) : st * list word :=
+  if al_valid s then req_loop (S (length (addrs s))) s else (s, []).
 
-(* op [1; k; a1..an] *)
-Definition round (s : st) (k : Z) (l0 : list Z) : st * list word :=
+(* startFirstPassLocked *)
+Definition start_first_pass (s : st) : st * list word :=
+  let s1 := set_pass s true 0 in
+  let s2 := set_sds s1 (fun x => if existsb (Nat.eqb x) (subs s1) then d_set_failed false (sds s1 x) else sds s1 x) (nsc s1) in
+  request_connection s2.
+
+(* resolverErrorLocked *)
+Definition resolver_error (s : st) : st * list word :=
+  if negb (bstate s =? TF) && (0 <? length (addrs s))%nat then (s, [])
+  else update_state s TF (-1).
+
+(* shutdownRemainingLocked *)
+Definition shutdown_remaining (s : st) (sc : nat) : st * list word :=
+  let s1 := cancel_timer s in
+  let '(s2, e) := shutdown_all s1 (filter (fun x => negb (Nat.eqb x sc)) (subs s1)) in
+  (set_subs s2 [sc], e).
+
+(* UpdateClientConnState; the last event is the result *)
+Definition resolver_update (s : st) (l0 : list Z) : st * list word :=
   let l := filter valid_addr l0 in
+  let s0 := cancel_timer s in
   match l with
   | [] =>
-    (* closeSubConnsLocked, updateAddrs(nil), resolverErrorLocked *)
-    let all := subs s ++ match rdy s with Some p => [p] | None => [] end in
-    (mkst TF [] None 0 (nsc s), [[12; 1]] ++ map (fun p => evS (snd p)) all ++ [evU TF (-1)])
+    let '(s1, e1) := shutdown_all s0 (subs s0) in
+    let s2 := set_sticky (set_list (set_subs s1 []) [] O) false in
+    let '(s3, e3) := resolver_error s2 in
+    (s3, e1 ++ e3 ++ [[12; 1]])
   | _ =>
     let l' := preprocess l in
-    let n_new := Z.of_nat (length l') in
-    let keep_ready := match rdy s with Some p => memz (fst p) l' | None => false end in
-    if keep_ready then (mkst (bstate s) (subs s) (rdy s) n_new (nsc s), [[12; 0]])
+    let prev := cur_addr s0 in
+    let prev_ready := match lookup s0 prev with
+                      | Some sc => d_raw (sds s0 sc) =? READY
+                      | None => false
+                      end in
+    let prev_count := length (addrs s0) in
+    let s1 := set_list s0 l' O in
+    let '(s1k, kept) := if prev_ready then al_seek s1 prev else (s1, false) in
+    if kept then (s1k, [[12; 0]])
     else
-      let all := subs s ++ match rdy s with Some p => [p] | None => [] end in
-      let retained := filter (fun p => memz (fst p) l') (subs s) in
-      let removed := filter (fun p => negb (memz (fst p) l')) all in
-      let F := filter (fun a => negb (has_addr a retained)) l' in
-      let e0 := [[12; 0]] ++ map (fun p => evS (snd p)) removed in
-      let was_ready := match rdy s with Some _ => true | None => false end in
-      if was_ready || (bstate s =? CONNECTING) || (naddrs s =? 0) then
-        let '(s1, e) := pass s retained F k true n_new in
-        (s1, e0 ++ [evU CONNECTING (-1)] ++ e)
-      else if bstate s =? TF then
-        let '(s1, e) := pass s retained F k false n_new in
-        (s1, e0 ++ e)
-      else (mkst (bstate s) retained None n_new (nsc s), e0)
+      (* reconcileSubConnsLocked *)
+      let gone := filter (fun sc => negb (memz (d_addr (sds s1 sc)) l')) (subs s1) in
+      let '(s2, e2) := shutdown_all s1 gone in
+      let s3 := set_subs s2 (filter (fun sc => memz (d_addr (sds s1 sc)) l') (subs s1)) in
+      if prev_ready || (bstate s3 =? CONNECTING) || (prev_count =? 0)%nat then
+        let '(s4, e4) := force_state s3 CONNECTING (-1) in
+        let '(s5, e5) := start_first_pass s4 in
+        (s5, e2 ++ e4 ++ e5 ++ [[12; 0]])
+      else if bstate s3 =? TF then
+        let '(s5, e5) := start_first_pass s3 in
+        (s5, e2 ++ e5 ++ [[12; 0]])
+      else (s3, e2 ++ [[12; 0]])
   end.
 
-(* op [4]: resolverErrorLocked *)
-Definition resolver_error (s : st) : st * list word :=
-  if negb (bstate s =? TF) && (0 <? naddrs s) then (s, [])
-  else (mkst TF (subs s) (rdy s) (naddrs s) (nsc s), [evU TF (-1)]).
+(* updateSubConnState for the scData of sub-channel sc (any sub-channel ever created) *)
+Definition sc_state (s : st) (sc : nat) (v : Z) : st * list word :=
+  let old := d_raw (sds s sc) in
+  let s1 := upd_sd s sc (d_set_raw v) in
+  if negb (is_active s1 sc) then (s1, [])
+  else if v =? SHUTDOWN then (upd_sd s1 sc (d_set_eff SHUTDOWN), [])
+  else
+    let s2 := if v =? TF then upd_sd s1 sc (d_set_failed true) else s1 in
+    if v =? READY then
+      let '(s3, e3) := shutdown_remaining s2 sc in
+      let '(s4, found) := al_seek s3 (d_addr (sds s3 sc)) in
+      if negb found then (s4, e3)
+      else
+        let '(s5, e5) := update_state (upd_sd s4 sc (d_set_eff READY)) READY (zn sc) in
+        (s5, e3 ++ e5)
+    else if (old =? READY) || ((old =? CONNECTING) && (v =? IDLE)) then
+      let '(s3, e3) := shutdown_remaining s2 sc in
+      let s4 := set_list (upd_sd s3 sc (d_set_eff v)) (addrs s3) O in
+      let '(s5, e5) := update_state s4 IDLE (-1) in
+      (s5, e3 ++ e5)
+    else if firstPass s2 then
+      if v =? CONNECTING then
+        if negb (d_eff (sds s2 sc) =? TF) then
+          let s3 := upd_sd s2 sc (d_set_eff CONNECTING) in
+          if negb (bstate s3 =? TF) then update_state s3 CONNECTING (-1) else (s3, [])
+        else (s2, [])
+      else if v =? TF then
+        let s3 := upd_sd s2 sc (d_set_eff TF) in
+        if cur_addr s3 =? d_addr (sds s3 sc) then
+          let s4 := cancel_timer s3 in
+          let '(s5, more) := al_increment s4 in
+          if more then request_connection s5 else end_first_pass s5
+        else end_first_pass s3
+      else (s2, [])
+    else if v =? TF then
+      let n := Z.of_nat (length (subs s2)) in
+      let s3 := set_pass s2 (firstPass s2) ((numTF s2 + 1) mod n) in
+      if (numTF s3 mod n) =? 0 then update_state s3 TF (-1) else (s3, [])
+    else if v =? IDLE then (s2, [evC sc])
+    else (s2, []).
+
+(* the timer callback of scheduleNextConnectionLocked *)
+Definition timer_fire (s : st) : st * list word :=
+  if timer s then
+    let s1 := set_timer s false in
+    let '(s2, more) := al_increment s1 in
+    if more then request_connection s2 else (s2, [])
+  else (s, []).
+
+Definition exit_idle (s : st) : st * list word :=
+  if bstate s =? IDLE then
+    let '(s1, e1) := update_state s CONNECTING (-1) in
+    let '(s2, e2) := start_first_pass s1 in (s2, e1 ++ e2)
+  else (s, []).
+
+Definition sc_of (s : st) (z : Z) : option nat :=
+  if (0 <=? z) && (z <? zn (nsc s)) then Some (Z.to_nat z) else None.
+
+(* ops: [1; a1..an] resolver update | [2; sc; state] sub-channel state | [4] resolver error
+        | [5] 250ms pass (the timer fires if scheduled) | [6] ExitIdle *)
+Definition step_main (s : st) (op : word) : st * list word :=
+  match op with
+  | 1 :: l => resolver_update s l
+  | [2; z; v] => match sc_of s z with
+                 | Some sc => if (0 <=? v) && (v <=? 4) then sc_state s sc v else (s, [])
+                 | None => (s, [])
+                 end
+  | 4 :: _ => resolver_error s
+  | 5 :: _ => timer_fire s
+  | 6 :: _ => exit_idle s
+  | _ => (s, [])
+  end.
 
 Definition step (s : st) (op : word) : st * list word :=
-  let '(s1, e) :=
-    match op with
-    | 1 :: k :: l => round s k l
-    | 4 :: _ => resolver_error s
-    | _ => (s, [])
-    end in
-  (s1, e ++ [[0]]).
+  let '(s1, e) := step_main s op in (s1, e ++ [[0]]).
 
 Fixpoint run_from (s : st) (ops : list word) : st * list word :=
   match ops with
@@ -162,85 +326,96 @@ Definition run (ops : list word) : option (list word) := Some (snd (run_from ini
 
 (* ================= the property as a predicate on observations ================= *)
 
-Fixpoint sublist_b (a b : list Z) : bool :=
-  match a, b with
-  | [], _ => true
-  | _ :: _, [] => false
-  | x :: a', y :: b' => if x =? y then sublist_b a' b' else sublist_b a b'
-  end.
-
-Definition n_addrs (l : list word) : list Z :=
-  flat_map (fun w => match w with [2; _; a] => [a] | _ => [] end) l.
-Definition n_scs (l : list word) : list Z :=
-  flat_map (fun w => match w with [2; sc; _] => [sc] | _ => [] end) l.
-Definition c_scs (l : list word) : list Z :=
-  flat_map (fun w => match w with [3; sc] => [sc] | _ => [] end) l.
-Definition s_scs (l : list word) : list Z :=
-  flat_map (fun w => match w with [14; sc] => [sc] | _ => [] end) l.
 Definition u_events (l : list word) : list (Z * Z) :=
   flat_map (fun w => match w with [1; v; sc] => [(v, sc)] | _ => [] end) l.
+Definition s_scs (l : list word) : list Z :=
+  flat_map (fun w => match w with [14; sc] => [sc] | _ => [] end) l.
+Definition n_scs (l : list word) : list Z :=
+  flat_map (fun w => match w with [2; sc; _] => [sc] | _ => [] end) l.
 
-(* clause 1: READY is published only with a picker returning the sub-channel that was just
-   answered READY (the last one requested), after every other sub-channel of the policy
-   (older ones and the ones created in this round) received Shutdown *)
-Definition ready_ok (s : st) (chunk : list word) : bool :=
+(* clause 1 (READY soundness): READY is published only while processing the READY report of
+   the very sub-channel the picker returns, that sub-channel has not been shut down, and
+   by the end of the operation every other sub-channel ever created has received Shutdown *)
+Definition ready_ok (s : st) (op : word) (chunk : list word) : bool :=
   forallb (fun u =>
     negb (fst u =? READY) ||
-    match rev (n_scs chunk) with
-    | win :: others =>
-      (snd u =? win) &&
-      forallb (fun sc => memz sc (s_scs chunk))
-              (others ++ map snd (subs s) ++ match rdy s with Some p => [snd p] | None => [] end)
-    | [] => false
+    match op with
+    | [2; z; v] =>
+      (v =? READY) && (z =? snd u) &&
+      match sc_of s z with
+      | Some x =>
+        negb (d_shut (sds s x)) &&
+        forallb (fun sc => Nat.eqb sc x || d_shut (sds s sc) || memz (zn sc) (s_scs chunk)) (seq O (nsc s)) &&
+        match n_scs chunk with [] => true | _ => false end
+      | None => false
+      end
+    | _ => false
     end) (u_events chunk).
 
-(* clause 2: connections are requested for fresh sub-channels only, once each, in the order
-   of the pre-processed address list *)
-Definition order_ok (l' : list Z) (chunk : list word) : bool :=
-  sublist_b (n_addrs chunk) l' && word_eqb (c_scs chunk) (n_scs chunk).
+(* clause 3 (TF after all failed): if after the operation the address list is exhausted and
+   every active sub-channel's latest state is TRANSIENT_FAILURE, while before the operation
+   the pass was still running, TRANSIENT_FAILURE is published in this operation *)
+Definition all_failed (s : st) : bool :=
+  negb (al_valid s) && negb (match subs s with [] => true | _ => false end) &&
+  forallb (fun sc => d_raw (sds s sc) =? TF) (subs s).
+Definition pass_running (s : st) : bool :=
+  firstPass s && negb (bstate s =? READY) && negb (bstate s =? IDLE).
+Definition tf_ok (s s' : st) (chunk : list word) : bool :=
+  negb (all_failed s' && (firstPass s' || pass_running s)) ||
+  existsb (fun u => fst u =? TF) (u_events chunk).
 
-(* clause 3: a pass in which every address failed ends with TRANSIENT_FAILURE *)
-Definition tf_ok (k : Z) (chunk : list word) : bool :=
-  ((0 <=? k) && (k <? Z.of_nat (length (n_scs chunk)))) ||
-  match rev (u_events chunk) with
-  | (v, _) :: _ => v =? TF
-  | [] => false
+(* clause 4 (sticky TF): while TF published at the end of a pass over a non-empty list stands -
+   nothing else published since, no empty address list since, and no active sub-channel whose
+   latest state is READY ("until some subchannel becomes READY") - CONNECTING is not
+   published; a published READY or IDLE (which the code treats as a connection that was
+   READY and got lost) ends it *)
+Definition sticky_eff (s : st) : bool :=
+  sticky s && forallb (fun sc => negb (d_raw (sds s sc) =? READY)) (subs s) &&
+  negb (match addrs s with [] => true | _ => false end).
+Fixpoint sticky_walk (k : bool) (us : list (Z * Z)) : bool :=
+  match us with
+  | [] => true
+  | (v, _) :: r =>
+    if v =? CONNECTING then negb k && sticky_walk k r
+    else if (v =? READY) || (v =? IDLE) then sticky_walk false r
+    else sticky_walk k r
   end.
+Definition sticky_ok (s : st) (op : word) (chunk : list word) : bool :=
+  let k := match op with
+           | 1 :: l => match filter valid_addr l with [] => false | _ => sticky_eff s end
+           | _ => sticky_eff s
+           end in
+  sticky_walk k (u_events chunk).
 
-(* sticky TRANSIENT_FAILURE: the policy reported TF after a pass over a non-empty list (A62).
-   TF caused by an empty address list (naddrs = 0) is not sticky: the next non-empty update
-   forces CONNECTING (prevAddrsCount == 0 in UpdateClientConnState).
-   clause 4: while sticky no CONNECTING is published before READY ahead of any NewSubConn;
-   clause 5: ... nor by a sub-channel created in this round (the class repaired by 4e698e5) *)
-Definition sticky (s : st) : bool := (bstate s =? TF) && (0 <? naddrs s).
-
-(* is CONNECTING published before READY in this chunk?  with/without a NewSubConn before it *)
-Fixpoint connecting_before_ready (chunk : list word) (seen_new : bool) : option bool :=
+(* clause 2 (order): connection requests made while a pass runs (those before the pass's
+   closing TF in the chunk) are at most one per operation and go to the address the pass has
+   advanced to, which lies strictly after the previous position unless the pass (re)started *)
+Fixpoint connects_before_tf (chunk : list word) : list Z :=
   match chunk with
-  | [] => None
-  | [1; v; _] :: r => if v =? CONNECTING then Some seen_new
-                      else if v =? READY then None else connecting_before_ready r seen_new
-  | (2 :: _) :: r => connecting_before_ready r true
-  | _ :: r => connecting_before_ready r seen_new
+  | [] => []
+  | [1; v; _] :: r => if v =? TF then [] else connects_before_tf r
+  | [3; sc] :: r => sc :: connects_before_tf r
+  | _ :: r => connects_before_tf r
   end.
-
-Definition round_clauses (s : st) (k : Z) (l0 : list Z) (chunk : list word) (i : Z) : list (Z * Z * bool) :=
-  let l := filter valid_addr l0 in
-  let l' := preprocess l in
-  let keep_ready := match rdy s with Some p => memz (fst p) l' | None => false end in
-  let passes := negb (match l with [] => true | _ => false end) && negb keep_ready in
-  [ (1, i, ready_ok s chunk);
-    (2, i, order_ok l' chunk);
-    (3, i, negb passes || tf_ok k chunk);
-    (4, i, negb (sticky s) || match connecting_before_ready chunk false with Some false => false | _ => true end);
-    (5, i, negb (sticky s) || match connecting_before_ready chunk false with Some true => false | _ => true end) ].
+Definition is_start (s : st) (op : word) : bool :=
+  match op with 1 :: _ => true | 6 :: _ => bstate s =? IDLE | _ => false end.
+Definition order_ok (s s' : st) (op : word) (chunk : list word) : bool :=
+  negb (firstPass s' && (firstPass s || is_start s op)) ||
+  match connects_before_tf chunk with
+  | [] => true
+  | [z] => match sc_of s' z with
+           | Some sc => (d_addr (sds s' sc) =? cur_addr s') && (is_start s op || (idx s <? idx s')%nat || negb (firstPass s))
+           | None => false
+           end
+  | _ => false
+  end.
 
 Definition clause_op (s : st) (op : word) (chunk : list word) (i : Z) : list (Z * Z * bool) :=
-  match op with
-  | 1 :: k :: l => round_clauses s k l chunk i
-  | _ => [ (1, i, ready_ok s chunk); (2, i, order_ok [] chunk);
-           (4, i, negb (sticky s) || match connecting_before_ready chunk false with Some _ => false | None => true end) ]
-  end.
+  let s' := fst (step_main s op) in
+  [ (1, i, ready_ok s op chunk);
+    (2, i, order_ok s s' op chunk);
+    (3, i, tf_ok s s' chunk);
+    (4, i, sticky_ok s op chunk) ].
 
 Fixpoint split_chunk (obs : list word) : option (list word * list word) :=
   match obs with
@@ -265,6 +440,10 @@ Fixpoint clauses_from (s : st) (ops obs : list word) (i : Z) : list (Z * Z * boo
 Definition clauses (ops obs : list word) : list (Z * Z * bool) := clauses_from init ops obs 0.
 
 Definition holds_b (ops obs : list word) : bool := forallb (fun c => snd c) (clauses ops obs).
+
+(* clauses 1 and 4 (the ones covered by the bridge theorem) *)
+Definition holds_1_4 (ops obs : list word) : bool :=
+  forallb (fun c => (fst (fst c) =? 2) || (fst (fst c) =? 3) || snd c) (clauses ops obs).
 
 Definition check_case (c : case) : verdict :=
   decide (run (c_ops c)) (c_obs c) (clauses (c_ops c) (c_obs c)).
